@@ -49,6 +49,15 @@ def strip_generics(t):
     return "".join(out).replace("::::", "::")
 
 
+# values of the external constants the code refers to by name (Linux x86_64 ABI)
+NAMED_CONSTS = {
+    "EOPNOTSUPP": (95, "i32"), "EINVAL": (22, "i32"), "EXDEV": (18, "i32"), "ETXTBSY": (26, "i32"),
+    "ENOSYS": (38, "i32"), "EPERM": (1, "i32"), "EIO": (5, "i32"), "ENXIO": (6, "i32"),
+    "FIEMAP_EXTENT_LAST": (1, "u32"), "FIEMAP_EXTENT_SHARED": (0x2000, "u32"),
+    "FS_IOC_FIEMAP": (0xC020660B, "u32"), "FICLONE": (0x40049409, "u32"),
+}
+
+
 class EngineAbort(Exception):
     """the encoding cannot continue soundly (unknown callee, unsupported construct)"""
 
@@ -256,6 +265,7 @@ def _cp(v, memo):
 STD_ENUMS = {
     "Result": ["Ok", "Err"], "Option": ["None", "Some"], "ControlFlow": ["Continue", "Break"],
     "Cow": ["Borrowed", "Owned"], "Ordering": ["Less", "Equal", "Greater"],
+    "SeekFrom": ["Start", "End", "Current", "Data", "Hole"],
 }
 
 
@@ -509,6 +519,13 @@ class Engine:
         m = re.match(r"^(\w+)::MIN$", t)
         if m and m.group(1) in INT_TYPES:
             return IntV(int_range(m.group(1))[0], m.group(1))
+        # named constants: crate-local `const X: T = const V;` items and the external table
+        last = t.split("::")[-1]
+        if ("constval:" + last) in self.funcs and re.match(r"^[\w:]+$", t):
+            return self.const(st, self.funcs["constval:" + last][0])
+        if last in NAMED_CONSTS and re.match(r"^[\w:]+$", t):
+            v, ty = NAMED_CONSTS[last]
+            return IntV(v, ty)
         # unit enum variant   Path::Variant
         m = re.match(r"^(.*)::(\w+)$", t)
         if m:
@@ -583,6 +600,12 @@ class Engine:
             names = self.enum_of(path)
             if names and not vals and path.split("::")[-1] in names:
                 return AggV(path, names.index(path.split("::")[-1]), [], path.split("::")[-1])
+            # bare variant name (`Data(..)`): resolve through the destination's declared type
+            last = strip_generics(path).split("::")[-1]
+            if dest_ty:
+                names = self.enum_of(dest_ty)
+                if names and last in names:
+                    return AggV(dest_ty, names.index(last), vals, last)
             return AggV(path, None, vals)
         if k == "repeat":
             v = self.operand(st, fr, rv[1])
@@ -592,7 +615,7 @@ class Engine:
                 raise EngineAbort("repeat count %r" % rv[2])
             if n > 64:
                 return OpaqueV("array", None, {"elem": v, "len": n})
-            return AggV("array", None, [v] * n)
+            return AggV("array", None, [_cp(v, {}) for _ in range(n)])
         if k == "len":
             cell, path = self.resolve(st, fr, rv[1])
             v = self.read(st, cell, path, None)
@@ -666,6 +689,13 @@ class Engine:
             if lo < 0:
                 raise EngineAbort("signed Rem")
             return IntV(x % y, ty)
+        if op == "BitAnd":
+            # single-bit mask: stay in integer arithmetic (bit-blasting Int2BV is slow)
+            for u, v in ((x, y), (y, x)):
+                c = z3.simplify(v)
+                if z3.is_int_value(c) and c.as_long() > 0 and (c.as_long() & (c.as_long() - 1)) == 0 and lo == 0:
+                    k = c.as_long()
+                    return IntV(((u / k) % 2) * k, ty)
         if op in ("BitAnd", "BitOr", "BitXor"):
             bits = INT_TYPES[ty][0]
             f = {"BitAnd": lambda p, q: p & q, "BitOr": lambda p, q: p | q, "BitXor": lambda p, q: p ^ q}[op]
@@ -799,7 +829,7 @@ class Engine:
         if k == "nop":
             return
         if k == "assign":
-            v = self.rvalue(st, fr, s[2])
+            v = self.rvalue(st, fr, s[2], fr.fn.locals.get(s[1].local) if not s[1].proj else None)
             cell, path = self.resolve(st, fr, s[1])
             self.write(st, cell, path, v)
             return
@@ -944,7 +974,7 @@ class Engine:
         h = self.find_summary(callee)
         if h is None:
             fn = self.find_fn(callee)
-            if fn is not None and fn.blocks and any(re.search(p, fn.name) for p in self.inline):
+            if fn is not None and fn.blocks and any(re.search(p, fn.name) or re.search(p, callee) for p in self.inline):
                 self.push_call(st, fn, args, (dcell, dpath), ret_bb)
                 return None
             raise EngineAbort("no summary for callee %r (called from %s)" % (callee, fr.fn.name))
